@@ -717,3 +717,5 @@ def run(ctx: Context) -> None:
     ctx.isolate(r5_scheduler_row)
     ctx.isolate(r6_miss_iff_late)
     ctx.isolate(r7_census)
+    from . import c06
+    ctx.isolate(c06.r5_cancellation_reported, _alias={"C06.R5": "C08.R8"})
